@@ -211,6 +211,9 @@ def run(chk, facts, tier):
                     continue
                 seen.add((f.q, f.line))
                 vals = echoed(facts, f)
-                ok = bool(vals) and all(v == want for v in vals)
+                if not vals or any(v is None for v in vals):
+                    chk.broke('%s::%s: the opcode stored to out_buffer[1] could not be determined (idiom not recognised)' % (f.cls.split('::')[-1], nm))
+                    continue
+                ok = all(v == want for v in vals)
                 chk.instance('response-clears-and-echoes', f, '%s::%s echoes opcode %s (case %s)' % (f.cls.split('::')[-1], nm, vals, want), ok,
-                             '' if ok else 'the response to request opcode %s carries opcode %s: the client cannot match it to its request' % (want, vals), key='echo %s::%s' % (f.cls.split('::')[-1], nm))
+                             '' if ok else 'the response to request opcode %s carries opcode %s: the client cannot match it to its request' % (want, vals), key='echo %s::%s' % (f.cls.split('::')[-1], nm), exact=True)
